@@ -486,6 +486,11 @@ def reference_index(kind, dss, using):
     for i, d in enumerate(dss):
         if len(d.ids()) > len(dss[best].ids()):
             best = i
+    if using and any(not set(d.ids()) <= set(using) for j, d in enumerate(dss) if j != best):
+        # case B: the reference is the operand that need not be covered by the using components (it may come later)
+        for i in range(len(dss)):
+            if all(set(d.ids()) <= set(using) for j, d in enumerate(dss) if j != i):
+                return i
     return best
 
 
